@@ -32,7 +32,8 @@ const (
 type sessLog struct {
 	Apps      []fakeredis.App
 	Stamps    []int64
-	Psync     []fakeredis.PsyncEvent
+	Psync     []fakeredis.PsyncEvent // the PSYNCs the source served (+CONTINUE / +FULLRESYNC)
+	Refused   []fakeredis.PsyncEvent // the PSYNCs it answered with a transient error reply
 	Obs       map[int64]psyncObs
 	CpTrace   map[int][]cpEntry // index into Apps → positions stored after that command
 	Ended     string            // sentinel | tool-exited | refused | churn | watchdog
@@ -344,6 +345,18 @@ func (cr *caseRun) stampsFrom(n0, n int) []int64 {
 	return out
 }
 
+// servedPsyncs splits the source's log into served and refused requests.
+func servedPsyncs(evs []fakeredis.PsyncEvent) (served, refused []fakeredis.PsyncEvent) {
+	for _, e := range evs {
+		if e.Refused {
+			refused = append(refused, e)
+		} else {
+			served = append(served, e)
+		}
+	}
+	return
+}
+
 // ---- the tool
 
 type tool struct {
@@ -465,7 +478,7 @@ loop:
 			s.Ended = "watchdog"
 			break loop
 		case <-tick.C:
-			evs := so.PsyncLog()[psyncFrom:]
+			evs, refusedEvs := servedPsyncs(so.PsyncLog()[psyncFrom:])
 			if !fed && len(evs) > 0 {
 				fed = true
 				for i, c := range chunks {
@@ -491,7 +504,7 @@ loop:
 					break
 				}
 			}
-			if !delivered && s.Attempts >= refusalAttempts {
+			if !delivered && s.Attempts >= refusalAttempts+len(refusedEvs) {
 				s.Ended = "refused"
 				break loop
 			}
@@ -504,7 +517,7 @@ loop:
 	apps := cr.tgt.Applied()[n0:]
 	s.Apps = apps
 	s.Stamps = cr.stampsFrom(n0, len(apps))
-	s.Psync = so.PsyncLog()[psyncFrom:]
+	s.Psync, s.Refused = servedPsyncs(so.PsyncLog()[psyncFrom:])
 	s.Obs = cr.observations()
 	s.CpTrace = cr.traceFrom(n0, len(apps))
 	return s
@@ -537,7 +550,7 @@ loop:
 			s.Ended = "watchdog"
 			break loop
 		case <-tick.C:
-			evs := so.PsyncLog()[psyncFrom:]
+			evs, refusedEvs := servedPsyncs(so.PsyncLog()[psyncFrom:])
 			if len(evs) != seen {
 				seen, acksAt = len(evs), totalAcks()
 			}
@@ -546,7 +559,7 @@ loop:
 				break loop
 			}
 			s.Attempts = countInfo(src, reqFrom)
-			if s.Attempts >= refusalAttempts {
+			if s.Attempts >= refusalAttempts+len(refusedEvs) {
 				s.Ended = "refused"
 				break loop
 			}
@@ -559,7 +572,7 @@ loop:
 	apps := cr.tgt.Applied()[n0:]
 	s.Apps = apps
 	s.Stamps = cr.stampsFrom(n0, len(apps))
-	s.Psync = so.PsyncLog()[psyncFrom:]
+	s.Psync, s.Refused = servedPsyncs(so.PsyncLog()[psyncFrom:])
 	s.Obs = cr.observations()
 	s.CpTrace = cr.traceFrom(n0, len(apps))
 	return s
